@@ -769,11 +769,88 @@ func firstRoundRule(p *Prog, r *Report, rule string) {
 			}
 		}
 		okVal := unwrap(mu.Value) == round
+		// each case alone reaches the update: a peer seen for the first time (absent), and a peer whose recorded first
+		// round is greater (absent-AND-greater would never record anybody)
+		pi2 := p.pathMasks(fn, []Pred{qAbsent, qGreater})
+		aloneA, aloneG := false, false
+		for m := range pi2.in[mu.Block().Index] {
+			switch pi2.predMask(m) & 3 {
+			case 1:
+				aloneA = true
+			case 2:
+				aloneG = true
+			}
+		}
+		r.Check(aloneA && aloneG, rule, "PeerSetCache.Set:firstRounds:each-case-alone", p.ipos(mu), fnName(fn), "a first sighting alone, and a greater recorded round alone, each lead to the update",
+			fmt.Sprintf("the update of firstRounds is not reached by a first sighting alone (%v) or by a greater recorded round alone (%v): peers would never get a first round (no roots for them in frames), or never have it lowered", aloneA, aloneG))
 		r.Check(g && lowers && okVal, rule, "PeerSetCache.Set:firstRounds=min", p.ipos(mu), fnName(fn), "written when absent or when the recorded first round is greater: the minimum whatever the order of calls",
 			fmt.Sprintf("firstRounds is not maintained as a minimum (guarded by absent-or-greater: %v, lowered when an earlier round arrives later: %v, value is the round: %v): Store.Reset replays frame.PeerSets in map order, so a peer's first round — and with it whether GetFrame builds a root for it — depends on iteration order", g, lowers, okVal))
 	}
 	if n == 0 {
 		r.Fail(rule, "PeerSetCache.Set:firstRounds=min", p.pos(fn.Pos()), fnName(fn), "PeerSetCache.Set does not record first rounds")
+	}
+	// the getter reports what is recorded: (recorded round, true) when present, (_, false) when absent
+	if gfn := p.Func(HG, "PeerSetCache", "FirstRound"); gfn != nil && gfn.Signature.Results().Len() == 2 {
+		qPresent := func(l Lit) bool {
+			lk, present, ok := lookupLit(l)
+			if !ok || !present {
+				return false
+			}
+			fv, _ := fieldOf(lk.X)
+			return fv == fFR
+		}
+		fromLookup := func(v ssa.Value) bool {
+			return flowsFrom(v, func(x ssa.Value) bool {
+				e, ok := x.(*ssa.Extract)
+				if !ok {
+					return false
+				}
+				lk, ok := e.Tuple.(*ssa.Lookup)
+				if !ok {
+					return false
+				}
+				fv, _ := fieldOf(lk.X)
+				return fv == fFR
+			})
+		}
+		okG, why := true, ""
+		nRet := 0
+		for _, b := range gfn.Blocks {
+			ret, isRet := b.Instrs[len(b.Instrs)-1].(*ssa.Return)
+			if !isRet || (b.Index != 0 && len(b.Preds) == 0) {
+				continue
+			}
+			for _, rp := range retPointsOf(ret, 1) {
+				nRet++
+				c, isC := unwrap(rp.val).(*ssa.Const)
+				if !isC {
+					if !fromLookup(rp.val) {
+						okG, why = false, "the presence flag returned at "+p.ipos(ret)+" is not the lookup's own"
+					}
+					continue
+				}
+				isTrue := c.Value != nil && c.Value.String() == "true"
+				var g bool
+				if rp.pred != nil {
+					g, _ = p.allPathsEdge(rp.pred, ret.Block(), []Pred{qPresent, qAbsent}, func(m uint32) bool { return (isTrue && m&1 != 0) || (!isTrue && m&2 != 0) })
+				} else {
+					g, _ = p.allPaths(ret, []Pred{qPresent, qAbsent}, func(m uint32) bool { return (isTrue && m&1 != 0) || (!isTrue && m&2 != 0) })
+				}
+				if !g {
+					okG, why = false, fmt.Sprintf("FirstRound returns %v at %s on a path where the peer is %s", isTrue, p.ipos(ret), map[bool]string{true: "not recorded", false: "recorded"}[isTrue])
+				}
+				if isTrue {
+					for _, r0 := range retPointsOf(ret, 0) {
+						if (rp.pred == nil || r0.pred == rp.pred) && !fromLookup(r0.val) {
+							okG, why = false, "the round returned with true at "+p.ipos(ret)+" is not the recorded one"
+						}
+					}
+				}
+			}
+		}
+		r.Check(okG && nRet > 0, rule, "PeerSetCache.FirstRound:reports-what-is-recorded", p.pos(gfn.Pos()), fnName(gfn), "(recorded round, true) when present, false when absent", why)
+	} else {
+		r.Anchor(rule, "hashgraph.(*PeerSetCache).FirstRound")
 	}
 	// Reset really ranges over the map (documented reason for the rule) and rounds are re-sorted
 	rs := p.Func(HG, "InmemStore", "Reset")
